@@ -29,11 +29,11 @@ PY
 rm -f "$TMP"
 # `cargo test` rebuilt target/debug/penne without the first-generation compiler: build it again for the demonstration
 PATH=/tmp/llvm-shim:$PATH cargo build --offline --features alpha,llvm-sys >/dev/null 2>&1
-( cd "_seed/demo$K" && PENNE_LLI=lli-14 PATH=/tmp/llvm-shim:$PATH sh ./run.sh >/tmp/demo_with_$$.log 2>&1 ); WITH=$?
+( cd "_seed/demo$K" && PENNE_LLI=lli-14 PATH=/tmp/llvm-shim:$PATH ./run.sh >/tmp/demo_with_$$.log 2>&1 ); WITH=$?
 git checkout -q -- .
 cargo build --offline >/dev/null 2>&1
 PATH=/tmp/llvm-shim:$PATH cargo build --offline --features alpha,llvm-sys >/dev/null 2>&1
-( cd "_seed/demo$K" && PENNE_LLI=lli-14 PATH=/tmp/llvm-shim:$PATH sh ./run.sh >/tmp/demo_without_$$.log 2>&1 ); WITHOUT=$?
+( cd "_seed/demo$K" && PENNE_LLI=lli-14 PATH=/tmp/llvm-shim:$PATH ./run.sh >/tmp/demo_without_$$.log 2>&1 ); WITHOUT=$?
 echo "RESULT build_default=$B1 build_alpha=$B2 tests=$T demo_with_change_exit=$WITH demo_without_change_exit=$WITHOUT"
 tail -3 /tmp/demo_with_$$.log | sed 's/^/  with: /'
 rm -f /tmp/demo_with_$$.log /tmp/demo_without_$$.log
